@@ -6,6 +6,7 @@ import (
 	"errors"
 	"fmt"
 	"io"
+	"reflect"
 	"runtime/debug"
 	"strings"
 
@@ -31,6 +32,10 @@ type ctl struct {
 	// prog: the handler performs several binds in this order on the one request (combined family, combo.go);
 	// every step binds into a fresh value of the shape and is recorded in obs.multi
 	prog []bindStep
+	// mode (option histories, modes.go): the handling mode this ONE request asks for, spelled exactly as given
+	// (hmLegacy: the station-wide convention above); custom: bind through Bind().Custom(name)
+	mode   hmode
+	custom string
 }
 
 // bindStep is one bind call of a handler that binds several sources of one request.
@@ -52,6 +57,9 @@ type obs struct {
 	multi    []stepObs
 	// redundant-configuration stations: what the configured StructValidator was handed
 	validated int
+	// what the handler saw right after its bind call returned, before it touched the response itself
+	afterBind int
+	ctxID     uintptr // identity of the (pooled) ctx that served the request
 }
 
 // station is one independent server (+ bundled client wired to it through an in-memory round tripper).
@@ -72,10 +80,21 @@ type station struct {
 
 func bindInto(c fiber.Ctx, k ctl, dst any) error {
 	b := c.Bind()
-	if k.auto {
-		b = b.WithAutoHandling()
-	} else if k.manualExplicit {
+	switch k.mode {
+	case hmManualDefault: // the documented default: nothing is said
+	case hmManualExplicit:
 		b = b.WithoutAutoHandling()
+	case hmAuto:
+		b = b.WithAutoHandling()
+	default:
+		if k.auto {
+			b = b.WithAutoHandling()
+		} else if k.manualExplicit {
+			b = b.WithoutAutoHandling()
+		}
+	}
+	if k.custom != "" {
+		return b.Custom(k.custom, dst)
 	}
 	if k.viaBody {
 		return b.Body(dst)
@@ -167,8 +186,9 @@ func newStationFlavor(split bool, flv flavor) *station {
 		k.manualExplicit = st.split
 		err := bindInto(c, k, dst)
 		st.obs.got, st.obs.err = dst, err
+		st.obs.afterBind, st.obs.ctxID = c.Response().StatusCode(), reflect.ValueOf(c).Pointer()
 		if err != nil {
-			if st.ctl.auto {
+			if st.ctl.auto || st.ctl.mode == hmAuto {
 				return err // documented use of automatic handling: just return the error
 			}
 			return c.Status(manualStatus).SendString(err.Error())
